@@ -50,6 +50,10 @@ func NewBugExcerpt(b *BugCache) *BugExcerpt {
 		actorsIds = append(actorsIds, actor.Id())
 	}
 
+	// The labels are copied: a label change sorts and extends the snapshot's slice in
+	// place, which must not show through excerpts handed out or being matched already.
+	labels := append([]bug.Label(nil), snap.Labels...)
+
 	e := &BugExcerpt{
 		id:                b.Id(),
 		CreateLamportTime: b.CreateLamportTime(),
@@ -58,7 +62,7 @@ func NewBugExcerpt(b *BugCache) *BugExcerpt {
 		EditUnixTime:      snap.EditTime().Unix(),
 		AuthorId:          snap.Author.Id(),
 		Status:            snap.Status,
-		Labels:            snap.Labels,
+		Labels:            labels,
 		Actors:            actorsIds,
 		Participants:      participantsIds,
 		Title:             snap.Title,
